@@ -549,6 +549,28 @@ func Scenarios() []Scenario {
 				{Name: "p1", Objects: []*unstructured.Unstructured{ConfigMap("shared", "y"), Widget("w1", 2)}},
 			}, "a1"))
 		}},
+		{Name: "cluster-delegated-handover", Setup: func(w *World) {
+			// cluster-scoped revisions with namespaced objects; revision 1 delegated its phase (ClusterObjectSetPhase)
+			nsd := func(u *unstructured.Unstructured) *unstructured.Unstructured { u.SetNamespace(NS); return u }
+			mk := func(name string, phases []PhaseSpec, prev ...string) *corev1alpha1.ClusterObjectSet {
+				cos := &corev1alpha1.ClusterObjectSet{ObjectMeta: metav1.ObjectMeta{Name: name}}
+				cos.Spec.ObjectSetTemplateSpec = TemplateSpec(phases)
+				for _, p := range prev {
+					cos.Spec.Previous = append(cos.Spec.Previous, corev1alpha1.PreviousRevisionReference{Name: p})
+				}
+				return cos
+			}
+			k1 := w.EnvCreate(mk("a1", []PhaseSpec{
+				{Name: "p1", Class: "default", Objects: []*unstructured.Unstructured{nsd(ConfigMap("shared", "x")), nsd(Widget("w1", 1))}},
+			}))
+			kph := Key{pkoGroup, "ClusterObjectSetPhase", "", "a1-p1"}
+			w.RunPass("cos", k1)
+			w.RunPass("cph", kph)
+			w.RunPass("cos", k1)
+			w.EnvCreate(mk("a2", []PhaseSpec{
+				{Name: "p1", Objects: []*unstructured.Unstructured{nsd(ConfigMap("shared", "y")), nsd(Widget("w1", 2))}},
+			}, "a1"))
+		}},
 		{Name: "local-to-delegated", Setup: func(w *World) {
 			w.EnvCreate(NewObjectSet("a1", []PhaseSpec{
 				{Name: "p1", Objects: []*unstructured.Unstructured{ConfigMap("shared", "x"), Widget("w1", 1)}},
